@@ -179,3 +179,19 @@ Definition greedy_witness : value :=
                                     ("use_custom_wide_runner"%string, VB false)]);
            ("full"%string, VRec [("exprs[0]"%string, VS [97; 46; 43; 102; 111; 111; 46; 98]); ("exprs[1]"%string, VS []);
                                  ("use_custom_wide_runner"%string, VB false)])]).
+
+(* ---------------------------------------------------------------- finding: NaN float external symbols
+   borsh refuses to write a NaN f64, so `Scanner::to_bytes` fails (also into a Vec) for a scanner holding a NaN
+   external symbol value.  bits: the IEEE bit pattern of the symbol's value; impl_refused: to_bytes returned Err.
+   corr: the model's encode refuses exactly when the implementation does; spec: the scanner can be saved;
+   class 1: the value is a NaN. *)
+Definition quiet_nan_bits : N := 9221120237041090560.   (* 0x7FF8_0000_0000_0000 = f64::NAN *)
+
+Definition float_symbol (bits : N) : value := VCtor "Float"%string (VRec [("0"%string, VN bits)]).
+
+Definition C10_unsaveable (bits : N) (impl_refused : bool) : bool * bool * N :=
+  let model_refused := match encode write_env (float_symbol bits) (SRef "ExternalValue"%string) with
+                       | None => true
+                       | Some _ => false
+                       end in
+  (Bool.eqb model_refused impl_refused, negb impl_refused, if is_nan bits then 1 else 0).
